@@ -33,7 +33,7 @@ class WorldC16(World):
     STATE_CHANGING = ('build', 'solve', 'permute')
     STATE_RULE = 'per Equilibrium object: (number of species, number of elements, solves so far bucket, last solve failed?)'
     PROBES = ('reused-object-solve', 'solve-after-failed-solve', 'permuted-twin-compared', 'iter-cap-fired',
-              'solver-raise-fired', 'early-stop-oracle-sensitive', 'natural-nonconvergence', 'warned-although-solver-succeeded', 'span>=30', 'rank-deficient-network',
+              'solver-raise-fired', 'early-stop-oracle-sensitive', 'natural-nonconvergence', 'span>=30', 'rank-deficient-network',
               'trace-species-present', 'loaded-from-thermdat', 'load-read-fault', 'high-pressure', 'low-pressure',
               'twelve-species', 'four-elements', 'optimality-judged', 'deep-trace-not-judged')
     REAL = ('pmutt.equilibrium.Equilibrium (constructor, get_net_comp, from_thermdat)', 'scipy.optimize.minimize(SLSQP)',
